@@ -14,6 +14,13 @@ def bounds(tier):
     return "5^5 keyword-type sequences x plain/outline, background 2 + scenario 3 steps, and background 0 + 3; feature level and inside a rule"
 
 
+def solver_part(tier):
+    from . import _p
+    out = {"violations": [], "harness_errors": [], "coverage": {}, "samples": [], "queries": 0, "queries_nontrivial": 0, "solver_s": 0.0,
+           "summary": "keyword table: shipped copy compared with the master copy (plain comparison)"}
+    return _p.compare_language_tables("C10", out)
+
+
 def conditions(tier):
     cs = []
     for k1 in range(5):
@@ -23,10 +30,16 @@ def conditions(tier):
         cs.append(Cond(_c.M, "keyword_types", {"nbg": 1, "nsc": 2, "rule": True, "fix": {"k2": 0, "k5": 0, "k3": k3}}, T=300))
     # matcher side: the keyword type a step line gets (category of the keyword; Unknown when listed in several), also after a
     # '# language:' header naming the dialect already in force and on a reused matcher whose previous document used another dialect
-    for d, o, mode in (("en", "fr", "default"), ("en", "fr", "same"), ("en", "fr", "history"), ("fr", "en", "header")) + \
+    for d, o, mode in (("en", "fr", "default"), ("en", "fr", "same"), ("en", "fr", "history"), ("fr", "en", "header"), ("fr", "en", "history2")) + \
             (() if tier == "quick" else (("ht", "en", "default"), ("ka", "en", "default"), ("sk", "en", "history2"))):
         cs.append(Cond("harness.kw", "keyword_in_role", {"dialect": d, "mode": mode, "other": o, "maxlen": 0, "steps_only": True}, T=900, reach=["in-role"],
                        label="kw.step_keyword_types[%s,%s]" % (d, mode)))
+    if tier != "quick":
+        import json, os
+        from kit import runner
+        for d in sorted(json.load(open(os.path.join(runner.REPO, "gherkin-languages.json"), encoding="utf-8"))):
+            cs.append(Cond("harness.kw", "keyword_in_role", {"dialect": d, "mode": "default", "maxlen": 0, "steps_only": True}, T=900, reach=["in-role"],
+                           label="kw.step_keyword_types[%s,default]" % d))
     cs += _c.source_level(tier)[::2]
     cs.append(Cond(_c.M, "twin_types_never_unknown", T=60, expect="cex"))
     return cs
